@@ -78,6 +78,19 @@ func crashSeeds(thorough bool) []*CrashSeed {
 		cp.Prologue = pro
 		seeds = append(seeds, &cp)
 	}
+	// histories in a session that follows a clean shutdown and an idle session (opened and shut down without a
+	// statement): the LSN counter and the log across clean restarts
+	for _, base := range append([]*CrashSeed{}, seeds...) {
+		if base.Name != "small/mem128/ckpt=false" && !(thorough && base.Name == "page-full/mem128/ckpt=false") {
+			continue
+		}
+		a12 := crashAlphabet(base, 12)
+		cp := *base
+		cp.Name = base.Name + "/after-idle-session/after-recovery"
+		cp.Prologue = []HOp{{Txn: 12, Kind: "begin"}, {Txn: 12, Kind: "stmt", Stmt: a12["upd1"]}, {Txn: 12, Kind: "commit"}}
+		cp.CleanIdle = true
+		seeds = append(seeds, &cp)
+	}
 	// one transaction whose log records exceed the log buffer (129 pages): the record that straddles the
 	// end of the buffer, the flush in the middle of a statement and a commit whose records span two log
 	// writes. 3 800-byte rows (one per heap page, no index on the wide column), pool large enough not to evict.
